@@ -22,7 +22,8 @@ ASSUME = ["an identifier is acceptable when load or generation raises; emitted c
 INTERNAL = ["dt", "t", "time", "states", "parameters", "values", "shape", "missing_variables", "numpy", "math", "jax",
             "dx_dt_linearized", "_values_0", "_values_1", "state", "parameter", "monitor", "missing", "state_index",
             "parameter_index", "monitor_index", "rhs", "monitor_values", "init_state_values", "explicit_euler", "key", "value",
-            "name", "NUM_STATES", "NUM_PARAMS", "len", "float", "int", "M_PI", "M_E", "strcmp", "fabs", "pow", "fmod", "main"]
+            "name", "NUM_STATES", "NUM_PARAMS", "len", "float", "int", "M_PI", "M_E", "strcmp", "fabs", "pow", "fmod", "main",
+            "true", "false", "is_true", "xfalse", "True_", "where", "zeros", "logical_and", "floor", "exp_"]
 PYKW = ["lambda", "def", "class", "if", "else", "for", "while", "return", "import", "from", "as", "in", "is", "not", "and", "or",
         "None", "True", "False", "pass", "with", "yield", "global", "del", "try", "except", "raise", "assert", "async", "await",
         "nonlocal", "break", "continue", "finally", "elif"]
@@ -30,7 +31,7 @@ CKW = ["double", "float", "const", "void", "char", "static", "struct", "switch",
        "signed", "sizeof", "typedef", "restrict", "inline", "auto", "register", "extern", "volatile", "union", "enum", "goto", "do"]
 SYMPY = ["E", "I", "S", "N", "O", "Q", "beta", "gamma", "zeta", "oo", "zoo", "nan", "Symbol", "x0", "e", "pi2", "Abs2"]
 FRESH = ["zq_fresh", "Vm", "Ca_i"]
-ROLES = ["state", "parameter", "intermediate", "condintermediate"]
+ROLES = ["state", "parameter", "intermediate", "condintermediate", "nested"]
 # two model names in one model: a name the printer renames (trailing underscore) next to the name it is renamed to, and
 # a parameter named like a state derivative / like another quantity's renamed form
 PAIRS = [("lambda", "lambda_"), ("lambda_", "lambda"), ("numpy", "numpy_"), ("numpy_", "numpy"), ("double", "double_"),
@@ -49,6 +50,12 @@ def model_for(ident, role):
         # an intermediate whose right-hand side is a bare Conditional (printed through the Piecewise-assignment path)
         return (f"parameters(a=0.5, b=2.0)\nstates(x=1.0, y=3.0)\n"
                 f"{ident} = Conditional(Gt(x, a), y*b, -y)\ndx_dt = -{ident} + b*x\ndy_dt = x - y*a + {ident}*t\n")
+    if role == "nested":
+        # a parameter read inside a Conditional that sits inside arithmetic (printed through the nested Piecewise path,
+        # where printers post-process the printed text)
+        return (f"parameters(a=0.5, {ident}=2.0)\nstates(x=1.0, y=3.0)\n"
+                f"i0 = 1 + Conditional(Gt(x, {ident}), y*{ident}, Conditional(Lt(y, a), {ident}, -y))\n"
+                f"dx_dt = -i0 + {ident}*x\ndy_dt = x - y*a + i0*t\n")
     if role == "state":
         S = ident
     elif role == "parameter":
